@@ -142,7 +142,7 @@ func TestC17_PARHistories(t *testing.T) {
 
 func TestC02_CodeBinding(t *testing.T) {
 	runEngine(t, "C02", EngCfg{
-		Weights: map[string]int{"authorize": 4, "redeem": 10, "advance": 2, "refresh": 1},
+		Weights: map[string]int{"authorize": 4, "redeem": 10, "advance": 2, "refresh": 1, "parPush": 1, "parUse": 2},
 		Stores:  []string{"mem", "tx"}, JWT: []bool{false, true}, RefreshScopeModes: []int{0, 1},
 		Flows: []string{"code", "code", "code", "code token", "code id_token"}, ShortLived: true,
 	}, func(l map[string]bool) bool {
